@@ -32,8 +32,8 @@ type mapLoop struct {
 	next   *ssa.Next
 	header *ssa.BasicBlock
 	body   map[*ssa.BasicBlock]bool
-	key    ssa.Value // extract #1 (may be nil)
-	val    ssa.Value // extract #2 (may be nil)
+	key    ssa.Value                // extract #1 (may be nil)
+	val    ssa.Value                // extract #2 (may be nil)
 	region map[*ssa.BasicBlock]bool // blocks executed within one iteration (body + exit paths)
 }
 
